@@ -152,7 +152,7 @@ public:
     std::unique_lock<std::mutex> lock(_mutex);
 
     // Wait until space available, timeout, or closed
-    bool success = _condNotFull.wait_for(lock, timeout, [this]()
+    bool success = _condNotFull.wait_for(lock, clampTimeout(timeout), [this]()
     {
       return _queue.size() < _maxSize || _closed.load(std::memory_order_acquire);
     });
@@ -178,7 +178,7 @@ public:
     std::unique_lock<std::mutex> lock(_mutex);
 
     // Wait until space available, timeout, or closed
-    bool success = _condNotFull.wait_for(lock, timeout, [this]()
+    bool success = _condNotFull.wait_for(lock, clampTimeout(timeout), [this]()
     {
       return _queue.size() < _maxSize || _closed.load(std::memory_order_acquire);
     });
@@ -275,7 +275,7 @@ public:
     std::unique_lock<std::mutex> lock(_mutex);
 
     // Wait until item available, timeout, or closed
-    bool success = _condNotEmpty.wait_for(lock, timeout, [this]()
+    bool success = _condNotEmpty.wait_for(lock, clampTimeout(timeout), [this]()
     {
       return !_queue.empty() || _closed.load(std::memory_order_acquire);
     });
@@ -381,6 +381,29 @@ public:
   }
 
 private:
+  /// \brief Bring a caller's timeout into the range wait_for() can add to a clock.
+  ///
+  /// wait_for() computes steady_clock::now() + timeout in nanoseconds. With
+  /// std::chrono::milliseconds::max() (the customary "wait for ever"), or
+  /// anything above about 292 years, that conversion overflows a signed
+  /// 64-bit count: undefined behaviour, and in practice a deadline in the
+  /// past, so the call reported a timeout at once instead of waiting.
+  /// milliseconds::min() overflows the same way. 100 years is "for ever" for
+  /// every caller; a negative timeout means "do not wait".
+  static std::chrono::milliseconds clampTimeout(std::chrono::milliseconds timeout)
+  {
+    constexpr std::chrono::milliseconds kMaxWait{std::chrono::hours{24 * 365 * 100}};
+    if (timeout > kMaxWait)
+    {
+      return kMaxWait;
+    }
+    if (timeout < std::chrono::milliseconds::zero())
+    {
+      return std::chrono::milliseconds::zero();
+    }
+    return timeout;
+  }
+
   mutable std::mutex _mutex;
   std::condition_variable _condNotEmpty;
   std::condition_variable _condNotFull;
